@@ -15,10 +15,20 @@ func TestMain(m *testing.M) { evid.Main(m) }
 
 // Every block built by an honest proposer is accepted by every honest
 // validator with the same head, is insertable, and all agree afterwards.
-func TestHonestProposalAccepted(t *testing.T) {
+func TestHonestProposalAccepted(t *testing.T) { honestProposal(t, nil) }
+
+// The same with a mempool dominated by identity transactions (conflicting
+// delegations, kills, status switches from the same senders).
+func TestHonestProposalAcceptedIdentityHeavy(t *testing.T) {
+	honestProposal(t, []types.TxType{types.OnlineStatusTx, types.OnlineStatusTx, types.DelegateTx, types.DelegateTx, types.DelegateTx, types.UndelegateTx, types.UndelegateTx,
+		types.KillTx, types.KillInviteeTx, types.KillDelegatorTx, types.KillDelegatorTx, types.ReplenishStakeTx, types.InviteTx, types.InviteTx, types.ActivationTx,
+		types.SendTx, types.SubmitFlipTx, types.DeleteFlipTx, types.ChangeGodAddressTx, types.SubmitAnswersHashTx, types.SubmitShortAnswersTx, types.SubmitLongAnswersTx, types.EvidenceTx})
+}
+
+func honestProposal(t *testing.T, only []types.TxType) {
 	rapid.Check(t, func(t *rapid.T) {
 		nontrivialProposals := 0
-		opt := sim.Options{MinActors: 3, MaxActors: 10, Replicas: 2, MaxReplicas: 5, Steps: 25, MaxTxPerStep: 8, Zones: true, Restarts: true}
+		opt := sim.Options{MinActors: 3, MaxActors: 10, Replicas: 2, MaxReplicas: 5, Steps: 25, MaxTxPerStep: 8, Zones: true, Restarts: true, OnlyTypes: only}
 		opt.BeforeDeliver = func(h *sim.History, proposer *sim.Replica, blk *types.Block) bool {
 			evid.Eval()
 			if proposer == nil {
